@@ -309,8 +309,134 @@ def r7_aggregate_properties(ctx):
     ctx.stats["aggregate_property_reads"] = n
 
 
+def r8_dtype_alias_lossless(ctx):
+    """The dtype of a component is serialised as `str(dtype)` and re-read through the engine, so the string alias of a
+    parametrised engine dtype has to determine the native `type` it wraps: a class that overrides `__str__` and computes
+    `type` from its fields in `__post_init__` must print `self.type` itself or every field `type` is computed from."""
+    from ..util import Expander
+    ix = ctx.ix
+    n = 0
+    for mp in ("pandera/engines/pandas_engine.py", "pandera/engines/polars_engine.py"):
+        m = ix.by_path.get(mp)
+        if m is None:
+            continue
+        for c in m.all_classes if hasattr(m, "all_classes") else m.classes.values():
+            post = c.methods.get("__post_init__")
+            st_ = c.methods.get("__str__")
+            if not post or not st_:
+                continue
+            into_type = set()
+            for g in post:
+                ex = Expander(g.node)
+                for call in calls_in(g.node):
+                    if callee_last(call) == "__setattr__" and len(call.args) == 3 and isinstance(call.args[1], ast.Constant) and call.args[1].value == "type":
+                        for d in ex.closure(call.args[2]):
+                            for a in ast.walk(d):
+                                if isinstance(a, ast.Attribute) and txt(a.value) == "self" and a.attr != "type":
+                                    into_type.add(a.attr)
+                for a in walk_no_nested(g.node):
+                    if isinstance(a, ast.Assign) and any(txt(t) == "self.type" for t in a.targets):
+                        for d in ex.closure(a.value):
+                            for x in ast.walk(d):
+                                if isinstance(x, ast.Attribute) and txt(x.value) == "self" and x.attr != "type":
+                                    into_type.add(x.attr)
+            if not into_type:
+                continue
+            for g in st_:
+                n += 1
+                ex = Expander(g.node)
+                reads = set()
+                delegated = False
+                for r in walk_no_nested(g.node):
+                    if isinstance(r, ast.Return) and r.value is not None:
+                        for d in ex.closure(r.value):
+                            for x in ast.walk(d):
+                                if isinstance(x, ast.Attribute) and txt(x.value) == "self":
+                                    reads.add(x.attr)
+                                if isinstance(x, ast.Call) and any(isinstance(a, ast.Name) and a.id == "self" for a in x.args) or \
+                                        (isinstance(x, ast.Call) and isinstance(x.func, ast.Name) and x.func.id in ("str", "repr", "format") and
+                                         any(isinstance(a, ast.Name) and a.id == "self" for a in x.args)):
+                                    delegated = True
+                                if isinstance(x, ast.Call) and txt(x.func).startswith("super()"):
+                                    delegated = True
+                ok = "type" in reads or into_type <= reads or delegated
+                ctx.ob("R8", g, f"{c.name}.__str__ determines the native type ({', '.join(sorted(into_type))} -> type)", ok,
+                       "prints self.type" if "type" in reads else ("prints every field the type is built from" if ok and not delegated else
+                       "delegates to another printer of self" if ok else
+                       f"`type` is built from {sorted(into_type)} but the alias reads only {sorted(reads)}: two dtypes that differ in "
+                       f"{sorted(into_type - reads)} print the same alias, so from_yaml(to_yaml(S)) resolves a different dtype"), g.loc(g.node))
+    ctx.stats["parametrised_aliases"] = n
+    if n < 1:
+        raise AnalysisError("no engine dtype with __post_init__-computed type and its own __str__ found (expected pandas DateTime)")
+
+
+def r9_script_imports(ctx):
+    """exec(to_script(S)) needs `Timestamp` / `Timedelta` in scope whenever a rendered check value is one.  Check values
+    are rendered for columns, index levels and dataframe-level checks, so the text that the import decision searches has
+    to contain every rendered piece (the assembled script, or all of the slot values that come from _format_checks /
+    _format_index)."""
+    from ..util import Expander
+    ix = ctx.ix
+    io = ix.module(IO)
+    f = io.functions.get("to_script")
+    if f is None:
+        raise AnalysisError("to_script not found")
+    ctx.touched(f)
+    ex = Expander(f.node)
+    fmts = [c for c in calls_in(f.node) if callee_last(c) == "format" and "SCRIPT_TEMPLATE" in txt(c.func)]
+    if not fmts:
+        raise AnalysisError("to_script: SCRIPT_TEMPLATE.format(...) not found")
+    fmt = fmts[0]
+    RENDER = ("_format_checks", "_format_index")
+
+    def render_calls(e):
+        out = set()
+        for d in ex.closure(e):
+            for x in ast.walk(d):
+                if isinstance(x, ast.Call) and callee_last(x) in RENDER:
+                    out.add(id(x))
+        return out
+
+    needed = {}
+    for k in fmt.keywords:
+        rc = render_calls(k.value)
+        if rc:
+            needed[k.arg] = rc
+    if len(needed) < 3:
+        raise AnalysisError(f"to_script: expected columns/checks/index slots rendered from check statistics, found {sorted(needed)}")
+    hay = []
+    for node in ast.walk(f.node):
+        if isinstance(node, ast.Compare) and len(node.ops) == 1 and isinstance(node.ops[0], ast.In):
+            st_ = node
+            while parent(st_) is not None and not isinstance(st_, ast.stmt):
+                st_ = parent(st_)
+            words = {w for x in ast.walk(st_) if isinstance(x, ast.Constant) and isinstance(x.value, str)
+                     for w in ("Timestamp", "Timedelta") if w in x.value}
+            if words:
+                hay.append((node, words))
+    seen_words = set()
+    for node, words in hay:
+        seen_words |= words
+        h = node.comparators[0]
+        whole = any(x is fmt for d in ex.closure(h) for x in ast.walk(d))
+        have = render_calls(h)
+        missing = sorted(k for k, rc in needed.items() if not rc <= have) if not whole else []
+        ctx.ob("R9", f, f"import of {'/'.join(sorted(words))} is decided on the whole rendered script", not missing,
+               "searches the assembled script" if whole else ("searches every rendered piece" if not missing else
+               f"`{txt(node)[:60]}` searches `{txt(h)}`, which does not contain the rendered {missing} slot(s): a datetime/timedelta "
+               "check value there is printed as Timestamp(...)/Timedelta(...) without the import and exec(to_script(S)) raises NameError"),
+               f.loc(node))
+    for w in ("Timestamp", "Timedelta"):
+        if w not in seen_words:
+            uncond = any(isinstance(x, ast.Constant) and isinstance(x.value, str) and "import" in x.value and w in x.value for x in ast.walk(io.tree))
+            ctx.ob("R9", f, f"generated script imports {w} when a check value needs it", uncond,
+                   "imported unconditionally" if uncond else f"no import decision for {w} found in to_script", f.loc(f.node))
+
+
 def run(ctx):
     r7_aggregate_properties(ctx)
+    r8_dtype_alias_lossless(ctx)
+    r9_script_imports(ctx)
     ix = ctx.ix
     io = ix.module(IO)
     st = ix.module(STATS)
